@@ -19,7 +19,7 @@ func init() {
 		ID:          "C12",
 		Level:       "other",
 		Run:         runC12,
-		Explanation: "E-COST: the body of MVP-1's (and MVP-2's, MVP-3's) instruction loop is interpreted to terms with the helper methods inlined; for every path the increments of the cycle counter are extracted and compared with the documented model — fetch (MemoryAccess; L1Access or MemoryAccess on MVP-2/3) + decode + [MemoryAccess iff the instruction reads memory] + InstructionType.Cycles() and then, unless the instruction returned, RegisterAccess iff RegisterChange else MemoryAccess iff MemoryChange (L1Access on a cache hit for MVP-3) — and nothing else writes the counter. R12.2: MVP-2's model equals MVP-1's term by term except the fetch term, which is L1Access or MemoryAccess with L1Access <= MemoryAccess. R12.3: on all twelve variants the returned counter is only ever incremented by non-negative amounts and every iteration of the main loop adds at least one positive constant. R12.4: Cycles() is total and returns constants >= 1. R12.5: the latency table is positive and ordered. Not decided: independence of timing from operand values (an information-flow property through maps, closures and coroutines; declined) and the 'instructions / issue width' lower bound (needs bus-capacity reasoning). R12.7 MemoryRead/MemoryWrite return exactly the addresses the instruction accesses (the latency model charges a memory read iff MemoryRead is non-empty).",
+		Explanation: "E-COST: the body of MVP-1's (and MVP-2's, MVP-3's) instruction loop is interpreted to terms with the helper methods inlined; for every path the increments of the cycle counter are extracted and compared with the documented model — fetch (MemoryAccess; L1Access or MemoryAccess on MVP-2/3) + decode + [MemoryAccess iff the instruction reads memory] + InstructionType.Cycles() and then, unless the instruction returned, RegisterAccess iff RegisterChange else MemoryAccess iff MemoryChange (L1Access on a cache hit for MVP-3) — and nothing else writes the counter. R12.2: MVP-2's model equals MVP-1's term by term except the fetch term, which is L1Access or MemoryAccess with L1Access <= MemoryAccess. R12.3: on all twelve variants the returned counter is only ever incremented by non-negative amounts and every iteration of the main loop adds at least one positive constant. R12.4: Cycles() is total and returns constants >= 1. R12.5: the latency table is positive and ordered. Not decided: independence of timing from operand values (an information-flow property through maps, closures and coroutines; declined) and the 'instructions / issue width' lower bound (needs bus-capacity reasoning). R12.7 MemoryRead/MemoryWrite return exactly the addresses the instruction accesses (the latency model charges a memory read iff MemoryRead is non-empty). R12.8 no control condition of the timing layer (variants, latency table) that changes a counter or leaves a step reads an operand value (register content, result value, data byte): a structural necessary condition of value-independence.",
 		Assumptions: []string{"the latency model is the README's: fetch, decode, optional memory read, execute, write-back"},
 		Trusted:     []string{"go/types", "term engine", "the model transcription in checker/c12.go"},
 	})
@@ -400,6 +400,8 @@ func runC12(r *Run) {
 	}
 	// ---- R12.6: the flush decision depends only on (expected target, resolved target): a branch whose target is
 	// the predicted one costs the same whether taken or not
+	r.floor("R12.8", 1)
+	ruleTimingValueIndependent(r, "R12.8")
 	// R12.7: the optional memory-read latency is charged exactly for the instructions that read memory
 	r.floor("R12.7", 90)
 	ruleAddressLists(r, "R12.7", true)
@@ -730,5 +732,114 @@ func ruleCyclesByClass(r *Run, rule string) {
 		}
 		sort.Strings(desc)
 		r.check(len(vals) == 1, rule, "risc.(InstructionType).Cycles:class("+class+")", fd.Pos(), "every opcode of the class %s has the same latency (%s)", class, strings.Join(desc, "; "))
+	}
+}
+
+// ruleTimingValueIndependent (R12.8): in the timing layer (the variants and the
+// latency table) no control condition whose branch changes a counter or leaves a
+// unit's step reads an operand VALUE — a register's content, an execution's result
+// value, a loaded or stored byte. Timing may depend on instruction kinds, register
+// NAMES (hazards), addresses (cache hits) and the path; a condition on a value makes
+// the cycle count depend on the data for the same path and addresses.
+func ruleTimingValueIndependent(r *Run, rule string) {
+	w := r.W
+	type target struct {
+		rel  string
+		pkg  *packages.Package
+		only string
+	}
+	var targets []target
+	for _, v := range variants(w) {
+		if v.pkg != nil {
+			targets = append(targets, target{v.rel, v.pkg, ""})
+		}
+	}
+	targets = append(targets, target{"risc", w.Pkg("risc"), "Cycles"})
+	n := 0
+	for _, tg := range targets {
+		info := tg.pkg.TypesInfo
+		for _, f := range tg.pkg.Syntax {
+			for _, d := range f.Decls {
+				fd, ok := d.(*ast.FuncDecl)
+				if !ok || fd.Body == nil || (tg.only != "" && fd.Name.Name != tg.only) {
+					continue
+				}
+				k := 0
+				readsValue := func(e ast.Expr) string {
+					found := ""
+					ast.Inspect(e, func(m ast.Node) bool {
+						switch x := m.(type) {
+						case *ast.SelectorExpr:
+							if x.Sel.Name == "RegisterValue" {
+								found = "an execution's RegisterValue"
+							}
+						case *ast.IndexExpr:
+							switch ctxFieldWritten(info, x.X) {
+							case "Registers":
+								found = "a register's content"
+							case "Memory":
+								found = "a byte of the memory image"
+							}
+							if sl, ok := info.TypeOf(x.X).Underlying().(*types.Slice); ok {
+								if b, ok := sl.Elem().Underlying().(*types.Basic); ok && b.Kind() == types.Int8 {
+									found = "a loaded or stored byte"
+								}
+							}
+						case *ast.CallExpr:
+							if fn, ok := typeutil.Callee(info, x).(*types.Func); ok && fn.Name() == "registerRead" {
+								found = "a register's content"
+							}
+						}
+						return true
+					})
+					return found
+				}
+				affectsTiming := func(body ast.Node) bool {
+					hit := false
+					ast.Inspect(body, func(m ast.Node) bool {
+						switch x := m.(type) {
+						case *ast.ReturnStmt:
+							hit = true
+						case *ast.IncDecStmt:
+							hit = true
+						case *ast.AssignStmt:
+							for _, l := range x.Lhs {
+								if b, ok := info.TypeOf(l).Underlying().(*types.Basic); ok && b.Info()&types.IsInteger != 0 {
+									hit = true
+								}
+							}
+						}
+						return true
+					})
+					return hit
+				}
+				ast.Inspect(fd.Body, func(m ast.Node) bool {
+					var cond ast.Expr
+					var body ast.Node
+					switch x := m.(type) {
+					case *ast.IfStmt:
+						cond, body = x.Cond, x
+					case *ast.SwitchStmt:
+						cond, body = x.Tag, x.Body
+					case *ast.ForStmt:
+						cond, body = x.Cond, x.Body
+					}
+					if cond == nil {
+						return true
+					}
+					what := readsValue(cond)
+					if what == "" || !affectsTiming(body) {
+						return true
+					}
+					n++
+					k++
+					r.bad(rule, fmt.Sprintf("%s.%s:value-condition#%d", tg.rel, declName(fd), k), cond.Pos(), "a control condition in the timing layer reads %s and its branch changes a counter or leaves the step: the cycle count depends on operand values for the same path and addresses", what)
+					return true
+				})
+			}
+		}
+	}
+	if n == 0 {
+		r.ok(rule, "timing-layer:no-value-conditions", token.NoPos, "no control condition of the variants or of the latency table that changes a counter or leaves a step reads a register content, a result value or a data byte")
 	}
 }
